@@ -343,6 +343,50 @@ func c02Growth(c *Ctx, ix *idxEngine, rows, hdr, cells, inTable, nCols, cols *ty
 		}
 	}
 	r.Floor("R02.3", "writers of nColumns/columns", nw, 3)
+	// the list of column handles only ever grows at its end: what is stored into ATable.columns is the table's own
+	// list (extended, resliced), or a new slice into which the whole of the old list was copied first - a column
+	// handle handed out earlier, and the properties set through it, stay the column's
+	for _, fs := range c.StoresTo(cols) {
+		if fs.Fresh {
+			continue
+		}
+		p := ix.proverFor(fs.Fn)
+		isOwn := func(v ssa.Value) bool {
+			f, b := loadedField(p.resolve(v))
+			return f == cols && b == fs.Base
+		}
+		good, why := true, ""
+		for _, root := range sliceRoots(fs.St.Val) {
+			if isNil(root) || isOwn(root) {
+				continue
+			}
+			ms, isMS := root.(*ssa.MakeSlice)
+			if !isMS {
+				good, why = false, "the list is replaced by "+root.String()
+				continue
+			}
+			copied := false
+			eachInstr(fs.Fn, func(in ssa.Instruction) {
+				call, is := isBuiltinCall(valueOf(in), "copy")
+				if !is || !sameSlice(call.Call.Args[0], ms) || !instrDominates(in, fs.St) {
+					return
+				}
+				for _, src := range sliceRoots(call.Call.Args[1]) {
+					if !isOwn(src) {
+						continue
+					}
+					// every old entry fits: len(old) <= len(destination) where the copy is made
+					if ok, _ := p.prove(leq(p.lenOf(call.Call.Args[1]), p.lenOf(call.Call.Args[0]), "copy takes every old entry"), in, nil, 0); ok {
+						copied = true
+					}
+				}
+			})
+			if !copied {
+				good, why = false, "the list is replaced by a new slice that was not first filled with every entry of the old one (copy copies min(len(dst), len(src)) entries): column handles and their properties are lost"
+			}
+		}
+		r.Check("R02.3", FuncName(fs.Fn), "store ATable.columns keeps every existing column handle in place", fs.St.Pos(), good, why)
+	}
 	r.Check("R02.3", FuncName(resize), "the column count never decreases", resize.Pos(), ix.nonDecreasingField(nCols), "every store of nColumns is dominated by a comparison that makes the new value >= the old one")
 	inv := ix.invariants()
 	if len(inv) > 0 {
